@@ -6,3 +6,7 @@ CLAIMED["C05"] = (
     "Coq proof by induction over the phrase cursor (loop invariant) + per-run vm_compute correspondence",
     "Theorems C05_cursor/C05_track/C05_from_lines: for every star-power list ordered by start tick and every non-decreasing note tick sequence the carried cursor yields exactly the index of the first half-open-covering phrase and never raises; zero-length, end-exclusion and none-iff corollaries. Unbounded in list sizes and tick values.",
     MODEL_NOTE)
+CLAIMED["C11"] = (
+    "Coq proof by induction over the tempo list and over the hinted fold (invariant: stored index = governing index) + per-run vm_compute correspondence",
+    "Theorems C11_hint/C11_ts/C11_ts_reject/C11_any_ok/C11_index (every tempo list with strictly increasing ticks, every tick, every hint: hints <= governing index are invisible, hints beyond it raise ValueError, the index is the last event at or before the tick), C11_threaded/C11_threaded_err/C11_notes (body lines in ANY order: the hinted fold either fails or stores exactly the un-hinted query, incl. the start->end hand-over of notes), C11_built_wf/C11_bpm_self (every built tempo list is well formed).",
+    MODEL_NOTE)
